@@ -352,26 +352,11 @@ func c16Custom(rc *RunCtx, rep *Report) {
 			fail := func(clause, format string, args ...any) {
 				rep.Violations = append(rep.Violations, Found{Scenario: "custom", V: xplorViolation(clause, fmt.Sprintf(format, args...)+"\nconfig: "+k.String()+fmt.Sprintf("\nschedule: %v", run.Trace), attrs, run.Choices(), []string{fmt.Sprintf("config=%d", ci)})})
 			}
-			switch {
-			case run.Deadlock:
-				fail("C16.deadlock", "client and handler are both blocked (%v) after %d client responses / %d handler requests: a message was not forwarded when complete", run.Blocked, len(res.ClientGot), len(res.HandlerGot))
-			case res.Panic != nil:
-				fail("C16.panic", "ServeHTTP panicked: %s\n%s", res.Panic.Value, stackTop(res.Panic.Stack))
-			case run.Livelock:
-				fail("C16.livelock", "step horizon reached")
-			case res.Problem != "":
-				fail("C16.exchange-broken", "%s", res.Problem)
-			case !res.ClientDone || !res.HandlerDone || len(res.ClientGot) != k.Rounds || len(res.HandlerGot) != k.Rounds:
-				fail("C16.exchange-incomplete", "client done=%v handler done=%v responses=%d requests=%d", res.ClientDone, res.HandlerDone, len(res.ClientGot), len(res.HandlerGot))
-			default:
-				for i := 0; i < k.Rounds; i++ {
-					if want := canonMsg("proto", world.MsgDesc(), Enc("proto", c16Msg(100+i+1, k.Size))); res.ClientGot[i] != want {
-						fail("C16.wrong-message", "response %d: got %s", i+1, short(res.ClientGot[i]))
-					}
-					if want := canonMsg("proto", world.MsgDesc(), Enc("proto", c16Msg(i+1, k.Size))); res.HandlerGot[i] != want {
-						fail("C16.wrong-message", "request %d: got %s", i+1, short(res.HandlerGot[i]))
-					}
-				}
+			fails := c16Judge(k, run, res)
+			for _, f := range fails {
+				fail(f[0], "%s", f[1])
+			}
+			if len(fails) == 0 {
 				if k.Rounds >= 2 {
 					rep.Nontrivial[k.String()] = struct{}{}
 				}
@@ -400,5 +385,54 @@ func c16Custom(rc *RunCtx, rep *Report) {
 	rep.Notes["wall_ms"] = time.Since(start).Milliseconds()
 	if len(rep.Outcomes) < 2 {
 		rep.Outcomes["(single outcome class: every schedule completed)"] = 0
+	}
+}
+
+// c16Judge is the oracle for one finished schedule of a ping-pong configuration.
+func c16Judge(k c16Config, run *sched.Run, res *c16Result) [][2]string {
+	var fails [][2]string
+	fail := func(clause, format string, args ...any) {
+		fails = append(fails, [2]string{clause, fmt.Sprintf(format, args...)})
+	}
+	switch {
+	case run.Deadlock:
+		fail("C16.deadlock", "client and handler are both blocked (%v) after %d client responses / %d handler requests: a message was not forwarded when complete", run.Blocked, len(res.ClientGot), len(res.HandlerGot))
+	case res.Panic != nil:
+		fail("C16.panic", "ServeHTTP panicked: %s\n%s", res.Panic.Value, stackTop(res.Panic.Stack))
+	case run.Livelock:
+		fail("C16.livelock", "step horizon reached")
+	case res.Problem != "":
+		fail("C16.exchange-broken", "%s", res.Problem)
+	case !res.ClientDone || !res.HandlerDone || len(res.ClientGot) != k.Rounds || len(res.HandlerGot) != k.Rounds:
+		fail("C16.exchange-incomplete", "client done=%v handler done=%v responses=%d requests=%d", res.ClientDone, res.HandlerDone, len(res.ClientGot), len(res.HandlerGot))
+	default:
+		for i := 0; i < k.Rounds; i++ {
+			if want := canonMsg("proto", world.MsgDesc(), Enc("proto", c16Msg(100+i+1, k.Size))); res.ClientGot[i] != want {
+				fail("C16.wrong-message", "response %d: got %s", i+1, short(res.ClientGot[i]))
+			}
+			if want := canonMsg("proto", world.MsgDesc(), Enc("proto", c16Msg(i+1, k.Size))); res.HandlerGot[i] != want {
+				fail("C16.wrong-message", "request %d: got %s", i+1, short(res.HandlerGot[i]))
+			}
+		}
+	}
+	return fails
+}
+
+func init() {
+	replayCustom["C16/custom"] = func(rf *ReplayFile, path string) int {
+		ci, ok := replayLabel(rf, "config")
+		cfgs := c16Configs(rf.Tier)
+		if !ok || ci >= len(cfgs) {
+			fmt.Println("replay: the file does not name a configuration of this tier")
+			return 2
+		}
+		k := cfgs[ci]
+		return replayReport(rf, path, func() ([][2]string, string) {
+			run, res := c16Exec(k, rf.Choices)
+			if run.Diverged != "" {
+				return [][2]string{{"harness.replay-diverged", run.Diverged}}, ""
+			}
+			return c16Judge(k, run, res), fmt.Sprint(res.ClientGot, res.HandlerGot, run.Trace)
+		})
 	}
 }
